@@ -147,7 +147,12 @@ func newWorld(t *testing.T) *world {
 		t.Fatal(err)
 	}
 	for _, n := range []string{"bank", "evm", "wasm", "oracle"} {
-		k := app.GetKey(n)
+		var k storetypes.StoreKey
+		if kk := app.GetKey(n); kk != nil {
+			k = kk
+		} else {
+			k = app.UnsafeFindStoreKey(n)
+		}
 		if k == nil {
 			t.Fatalf("no store key %s", n)
 		}
